@@ -88,6 +88,32 @@ func init() {
 		t.bytes(b)
 		return t
 	}
+	handlers[12] = func(k *kase) tokens {
+		v := &bgp.VerifOpen{Version: uint8(k.i(0)), ASN: uint16(k.i(1)), HoldTime: uint16(k.i(2)), BGPID: uint32(k.i(3))}
+		l := k.ints[4:]
+		vi := 0
+		for len(l) > 0 {
+			n := int(l[0])
+			l = l[1:]
+			caps := []bgp.Capability{}
+			for j := 0; j < n && j < len(l); j++ {
+				caps = append(caps, bgp.Capability{Code: uint8(l[j]), Value: k.b(vi)})
+				vi++
+			}
+			if n > len(l) {
+				n = len(l)
+			}
+			l = l[n:]
+			v.Params = append(v.Params, caps)
+		}
+		b, err := bgp.VerifOpenEncode(v)
+		if err != nil {
+			return tokens{1}
+		}
+		t := tokens{0}
+		t.bytes(b)
+		return t
+	}
 	handlers[6] = func(k *kase) tokens {
 		o, err := bgp.VerifOpenDecode(k.b(0))
 		if err != nil {
